@@ -1,9 +1,9 @@
 CONSTANTS
   N = 2
-  Upgs = {12}
+  Upgs = {9, 12}
   Gods = {"V"}
   Pools = {0, 1}
-  PrevSet = {2, 3, 4, 6, 7, 8}
+  PrevSet = {2, 3, 4, 6, 7}
   OutSet = {3, 4, 5, 6, 7, 8}
   GoodSet = {0, 1, 4}
   RepSet = {0, 1}
